@@ -354,14 +354,14 @@ func txStake(params *config.Configuration, a *voterKeys, amount common.Fixed64, 
 
 func txVoteV2(a *voterKeys, p *producerKeys, amount common.Fixed64, lock uint32, salt uint32) interfaces.Transaction {
 	pl := &payload.Voting{Contents: []payload.VotesContent{{VoteType: outputpayload.DposV2,
-		VotesInfo: []payload.VotesWithLockTime{{Candidate: p.node.pub, Votes: amount, LockTime: lock}}}}}
+		VotesInfo: []payload.VotesWithLockTime{{Candidate: p.owner.pub, Votes: amount, LockTime: lock}}}}}
 	return mkTx(common2.TxVersion09, common2.Voting, payload.VoteVersion, pl, saltInput(salt), nil,
 		[]*program.Program{{Code: a.code, Parameter: []byte{1}}})
 }
 
 func txRenew(a *voterKeys, p *producerKeys, refer common.Uint256, amount common.Fixed64, lock uint32, salt uint32) interfaces.Transaction {
 	pl := &payload.Voting{RenewalContents: []payload.RenewalVotesContent{{ReferKey: refer,
-		VotesInfo: payload.VotesWithLockTime{Candidate: p.node.pub, Votes: amount, LockTime: lock}}}}
+		VotesInfo: payload.VotesWithLockTime{Candidate: p.owner.pub, Votes: amount, LockTime: lock}}}}
 	return mkTx(common2.TxVersion09, common2.Voting, payload.RenewalVoteVersion, pl, saltInput(salt), nil,
 		[]*program.Program{{Code: a.code, Parameter: []byte{1}}})
 }
